@@ -15,6 +15,7 @@ import Paroxy.Proofs.FlatAlias
 import Paroxy.Proofs.FlatBackport
 import Paroxy.Proofs.FlatNeg
 import Paroxy.Proofs.FlatEscape
+import Paroxy.Proofs.FlatCtx
 namespace Paroxy.Props.C15
 open Paroxy.Flat
 
@@ -99,6 +100,36 @@ theorem C15_hash (t : Val) (p1 p2 : List Nat) {ty1 ty2 r1 r2 : Str} {ln1 ln2 : O
   obtain ⟨ns1, hn1⟩ : ∃ ns, At t p1 ns (.node ty1 true r1 ln1 fs1) := at_exists h1
   obtain ⟨ns2, hn2⟩ : ∃ ns, At t p2 ns (.node ty2 true r2 ln2 fs2) := at_exists h2
   exact hashFn_eq_iff t (mem_exprReprs_of_at hn1 rfl) (mem_exprReprs_of_at hn2 rfl)
+
+/-- **C15 (hash, structural form — one direction).** In a tree whose expression nodes carry their own
+context-free dump as hash source (`reprsAreDumps`: `Type(field=value, …)` without `ctx` and without the
+optional fields that are `None` — checked by the driver on every real expression), two expression nodes
+that are **the same expression up to load/store context** (`sameUpToCtx`: same types, field names and
+terminal values once the `ctx` fields are removed) get the same `_hash`.
+The converse — different expressions get different hashes — needs the injectivity of Python's
+`repr`-based dump text and stays exercised (`c15.spec` numbers the hashes after a length-prefixed
+canonical form and compares). -/
+theorem C15_hash_structural (t : Val) (hd : reprsAreDumps t = true) (p1 p2 : List Nat)
+    {ty1 ty2 r1 r2 : Str} {ln1 ln2 : Option Nat} {fs1 fs2 : List (Str × Val)}
+    (h1 : t.at? p1 = some (.node ty1 true r1 ln1 fs1)) (h2 : t.at? p2 = some (.node ty2 true r2 ln2 fs2))
+    (hs : sameUpToCtx (.node ty1 true r1 ln1 fs1) (.node ty2 true r2 ln2 fs2) = true) :
+    hashFn t r1 = hashFn t r2 := by
+  obtain ⟨ns1, hn1⟩ := at_exists h1
+  obtain ⟨ns2, hn2⟩ := at_exists h2
+  have e1 := reprsAreDumps_of_at hn1 hd
+  have e2 := reprsAreDumps_of_at hn2 hd
+  simp only [reprsAreDumps, Bool.not_true, Bool.false_or, Bool.and_eq_true, beq_iff_eq] at e1 e2
+  rw [e1.1, e2.1, dumpNoCtx_of_sameUpToCtx hs]
+
+/-- Non-vacuity: `a[i]` stored and `a[i]` loaded are the same expression up to context, and the dump of
+the first is `Subscript(value=Name(id='a'), slice=Name(id='i'))`. -/
+example :
+    let sub (c : Str) : Val := .node cs!"Subscript" true [] (some 1)
+      [(cs!"value", .node cs!"Name" true [] (some 1) [(cs!"id", .scalar cs!"'a'" .str), (cs!"ctx", .node cs!"Load" false [] none [])]),
+       (cs!"slice", .node cs!"Name" true [] (some 1) [(cs!"id", .scalar cs!"'i'" .str), (cs!"ctx", .node cs!"Load" false [] none [])]),
+       (cs!"ctx", .node c false [] none [])]
+    sameUpToCtx (sub cs!"Store") (sub cs!"Load") = true ∧
+      dumpNoCtx (sub cs!"Store") = cs!"Subscript(value=Name(id='a'), slice=Name(id='i'))" := by decide
 
 /-- The numbers are 1, 2, 3, … in order of first occurrence: the first expression gets `0x0001`. -/
 example : hashFn (.node cs!"Name" true cs!"Name(id='a')" (some 1) []) cs!"Name(id='a')" = cs!"0x0001" := by
